@@ -196,6 +196,8 @@ def traced(e):
         return True
     if e["k"] == "call" and e["f"] == "nat":
         return True  # nat(2) is a Guppy call in comptime mode
+    if e["k"] == "call" and e["f"] == "len":
+        return False  # comptime arrays are Python lists: len(..) is a Python int there, whatever the elements are
     if e["k"] == "idx" and e["e"]["k"] in ("tup", "arr") and isinstance(e.get("i"), int):
         # a literal index into a tuple / list display is the selected element (in comptime mode a Python value
         # if that element is a constant, whatever the other elements are)
